@@ -126,15 +126,21 @@ static void print_nodes(const MPT_STRUCT(node) *n, const MPT_STRUCT(node) *paren
 }
 /* complete forest as a flat pre-order list [{"d":depth,"n":..,"v":..}], no recursion;
  * at most `limit` entries are written, the total is returned */
-static long flat_nodes(const MPT_STRUCT(node) *first, long limit)
+/* badlinks: nodes of the whole forest whose parent pointer is not the node they are listed
+ * under (root for the top level) or whose prev pointer is not their predecessor in that list */
+static long flat_nodes(const MPT_STRUCT(node) *root, long limit, long *badlinks)
 {
-	const MPT_STRUCT(node) **stack;
+	const MPT_STRUCT(node) *first = root->children;
+	const MPT_STRUCT(node) **stack, **owner, **before;
 	size_t cap = 1024, top = 0;
 	long count = 0;
 	int firstout = 1;
 	stack = (const MPT_STRUCT(node) **) malloc(cap * sizeof(*stack));
+	owner = (const MPT_STRUCT(node) **) malloc(cap * sizeof(*owner));
+	before = (const MPT_STRUCT(node) **) malloc(cap * sizeof(*before));
+	*badlinks = 0;
 	fputc('[', drv_out);
-	if (first) stack[top++] = first;
+	if (first) { owner[top] = root; before[top] = 0; stack[top++] = first; }
 	while (1) {
 		const MPT_STRUCT(node) *n;
 		size_t depth;
@@ -142,6 +148,7 @@ static long flat_nodes(const MPT_STRUCT(node) *first, long limit)
 		if (!top) break;
 		n = stack[top - 1];
 		depth = top - 1;
+		if (n->parent != owner[top - 1] || n->prev != before[top - 1]) *badlinks += 1;
 		if (count < limit) {
 			const char *id = mpt_node_ident(n);
 			size_t vlen = 0;
@@ -156,13 +163,20 @@ static long flat_nodes(const MPT_STRUCT(node) *first, long limit)
 		count++;
 		/* next on this level is the sibling; descend first */
 		stack[top - 1] = n->next;
+		before[top - 1] = n;
 		if (n->children) {
-			if (top == cap) stack = (const MPT_STRUCT(node) **) realloc(stack, (cap *= 2) * sizeof(*stack));
+			if (top == cap) {
+				cap *= 2;
+				stack = (const MPT_STRUCT(node) **) realloc(stack, cap * sizeof(*stack));
+				owner = (const MPT_STRUCT(node) **) realloc(owner, cap * sizeof(*owner));
+				before = (const MPT_STRUCT(node) **) realloc(before, cap * sizeof(*before));
+			}
+			owner[top] = n; before[top] = 0;
 			stack[top++] = n->children;
 		}
 	}
 	fputc(']', drv_out);
-	free(stack);
+	free(stack); free(owner); free(before);
 	return count;
 }
 static void j_tree(const char *key, const MPT_STRUCT(node) *root, int *bad)
@@ -177,8 +191,9 @@ struct event {
 	int curr, prev;
 	uint8_t *path; size_t plen;   /* path bytes (elements + separators, without the assign byte) */
 	int sep, elems;     /* elems: path holds at least one element */
-	uint8_t *val;  size_t vlen;
+	uint8_t *val;  size_t vlen, vcopy;
 	int hasval;
+	long post;          /* characters stored behind the path when the event was delivered */
 	long reads;         /* getc calls so far */
 };
 static struct source *cur_src;
@@ -202,12 +217,20 @@ static int record(void *ctx, const MPT_STRUCT(path) *p, const MPT_STRUCT(value) 
 	e->path = (uint8_t *) malloc(e->plen + 1);
 	if (e->plen) memcpy(e->path, p->base + p->off, e->plen);
 	e->reads = cur_src ? cur_src->reads : 0;
+	{
+		MPT_STRUCT(path) tmp = *p;      /* mpt_path_valid() only touches the flags of the copy */
+		e->post = mpt_path_valid(&tmp);
+	}
 	if (val) {
 		const struct iovec *vec = (const struct iovec *) val->_addr;
+		size_t take = vec->iov_len;
 		e->hasval = 1;
-		e->val = (uint8_t *) malloc(vec->iov_len + 1);
-		memcpy(e->val, vec->iov_base, vec->iov_len);
 		e->vlen = vec->iov_len;
+		/* copy what is stored only (a range beyond it is reported by vl/post, not read) */
+		if (e->post >= 0 && take > (size_t) e->post) take = (size_t) e->post;
+		e->val = (uint8_t *) malloc(take + 1);
+		memcpy(e->val, vec->iov_base, take);
+		e->vcopy = take;
 	}
 	nevs++;
 	acct_on = was;
@@ -322,7 +345,8 @@ static void do_parse(struct cmd *c)
 	long a0, f0, a1, f1, a2, f2;
 	char *before = 0, *after = 0, *fbefore = 0, *fafter = 0;
 	size_t blen = 0, alen = 0, fblen = 0, falen = 0;
-	long nbefore, nafter;
+	long nbefore, nafter, lbefore = 0, lafter = 0, k;
+	long rep = (long) drv_int(c, "rep", 0);     /* parses of the same text into the target before the observed one */
 	FILE *keep = drv_out;
 
 	long m0a, m0f;
@@ -337,6 +361,15 @@ static void do_parse(struct cmd *c)
 		add_marker(&root, "a1", "o1", "b");
 		add_marker(root.children->next->next->next, "x", "ox", 0);
 	}
+	for (k = 0; k < rep; k++) {
+		static const MPT_STRUCT(parser_context) pinit = MPT_PARSER_INIT;
+		MPT_STRUCT(parser_context) c2 = pinit;
+		struct source s2 = src;
+		c2.name = ctx.name;
+		c2.src.getc = src_getc;
+		c2.src.arg = &s2;
+		(void) mpt_parse_node(&root, &c2, fmtnull ? 0 : (const char *) fmt);
+	}
 	acct_on = 0;
 
 	/* target before */
@@ -344,7 +377,7 @@ static void do_parse(struct cmd *c)
 	print_nodes(root.children, &root, 0, &bad);
 	fclose(drv_out);
 	drv_out = open_memstream(&fbefore, &fblen);
-	nbefore = flat_nodes(root.children, 2000);
+	nbefore = flat_nodes(&root, 2000, &lbefore);
 	fclose(drv_out);
 	drv_out = keep;
 
@@ -359,7 +392,7 @@ static void do_parse(struct cmd *c)
 	print_nodes(root.children, &root, 0, &bad);
 	fclose(drv_out);
 	drv_out = open_memstream(&fafter, &falen);
-	nafter = flat_nodes(root.children, 2000);
+	nafter = flat_nodes(&root, 2000, &lafter);
 	fclose(drv_out);
 	drv_out = keep;
 
@@ -378,7 +411,8 @@ static void do_parse(struct cmd *c)
 	j_int("len", (long long) src.len);
 	j_int("net", (a1 - a0) - (f1 - f0));           /* live blocks added by the call */
 	j_int("netclear", (a2 - m0a) - (f2 - m0f));    /* live blocks (target included) after clearing the target */
-	j_int("links", bad);
+	j_int("links", lafter);                        /* ill-linked nodes in the whole target after the call */
+	j_int("linksbefore", lbefore);
 	drv_dbg();
 	j_int("code", ret);
 	j_int("line", (long long) ctx.src.line);
@@ -438,7 +472,9 @@ static void do_events(struct cmd *c)
 			}
 		}
 		j_arr_close();
-		j_runs("v", evs[i].val, evs[i].vlen);
+		j_runs("v", evs[i].val, evs[i].vcopy);
+		j_int("vl", (long long) evs[i].vlen);       /* length of the value range handed to the handler */
+		j_int("post", evs[i].post);                 /* characters actually stored behind the path */
 		j_close();
 	}
 	j_arr_close();
